@@ -277,6 +277,10 @@ def run(repo: Repo, rep: Report) -> None:
                    "undo of %s is %s" % (mname, INVERSE[mname]) if tag == INVERSE[mname] else "%s logs undo tag %r instead of %r" % (mname, tag, INVERSE[mname]), node=ap)
             # (e)/(guard) provenance of the entry's components
             in_wild = wild is not None and any(ap is x for s in wild.body for x in ast.walk(s))
+            if wild is None:
+                # no split into a wildcard and a single-quad branch: an entry written inside a loop that enumerates the wrapped store is an expanded one
+                encl = next((p for p in mod.parents(ap) if isinstance(p, ast.For)), None)
+                in_wild = encl is not None and any(isinstance(c, ast.Call) and isinstance(c.func, ast.Attribute) and c.func.attr in ("triples", "quads") for c in ast.walk(encl.iter))
             if in_wild:
                 loop = None
                 for p in mod.parents(ap):
@@ -339,7 +343,14 @@ def run(repo: Repo, rep: Report) -> None:
             gn = g.by_ast[id(gd)]
             rep.ob("C18.a-mutation-is-logged", mod, "%s.%s" % (CLS, mname), gd.test, True, "no-op guard returns before logging", node=gd)
         if not guards:
-            rep.ob("C18.a-mutation-is-logged", mod, "%s.%s" % (CLS, mname), "presence guard", False,
+            # without a guard a no-op must not be logged either: true when every log update is made for a quad that an enumeration of the wrapped store
+            # has just reported (an absent triple is not enumerated, so nothing is logged for it)
+            def _enumerated(call: ast.AST) -> bool:
+                encl = next((p for p in mod.parents(call) if isinstance(p, (ast.For, ast.FunctionDef))), None)
+                return isinstance(encl, ast.For) and any(isinstance(c, ast.Call) and isinstance(c.func, ast.Attribute) and c.func.attr in ("triples", "quads") for c in ast.walk(encl.iter))
+            all_enum = bool(appends) and all(_enumerated(ap) for ap in appends)
+            rep.ob("C18.a-mutation-is-logged", mod, "%s.%s" % (CLS, mname), "presence guard", all_enum,
+                   "every log entry is written for a quad the wrapped store has just reported: a no-op leaves none" if all_enum else
                    "no presence guard: a no-op %s leaves a log entry that rollback replays" % mname, node=m)
 
     # ------------------------------------------------------------------ (c)
@@ -509,7 +520,7 @@ def run(repo: Repo, rep: Report) -> None:  # noqa: F811
     rep.rule("C18.j-guards-and-branch-tests-see-the-context",
              "the presence guards of add/remove ask the wrapped store about the triple IN THE GIVEN CONTEXT (the triples() call of the guard passes the context), and the test "
              "that sends remove() down the concrete single-quad branch also requires the context to be given (context None means `every graph`, i.e. a wildcard): otherwise a triple "
-             "present in another graph makes add() a no-op, and remove((s,p,o), None) logs one entry with context None that rollback replays into a fresh blank-node graph", floor=3)
+             "present in another graph makes add() a no-op, and remove((s,p,o), None) logs one entry with context None that rollback replays into a fresh blank-node graph", floor=2)
     for mname in ("add", "remove"):
         f = methods[mname]
         ctx = f.args.args[2].arg
@@ -524,7 +535,11 @@ def run(repo: Repo, rep: Report) -> None:  # noqa: F811
     ctx = f.args.args[2].arg
     wild = [n for n in own_nodes(f) if isinstance(n, ast.If) and isinstance(n.test, ast.Compare) and isinstance(n.test.left, ast.Constant) and n.test.left.value is None and isinstance(n.test.ops[0], ast.In) and n.orelse]
     if not wild:
-        raise AnalysisError("AuditableStore.remove: wildcard branch test not found")
+        # no single-quad shortcut at all: every removal is logged from an enumeration of the wrapped store (checked by C18.e), there is no branch test to get wrong
+        if not any(isinstance(n, ast.For) and any(isinstance(c, ast.Call) and isinstance(c.func, ast.Attribute) and c.func.attr in ("triples", "quads") for c in ast.walk(n.iter)) for n in own_nodes(f)):
+            raise AnalysisError("AuditableStore.remove: neither a wildcard branch test nor an enumeration of the wrapped store found")
+        rep.ob("C18.j-guards-and-branch-tests-see-the-context", mod, "AuditableStore.remove", "no single-quad branch", True,
+               "every removal, fully specified or not, is logged from what the wrapped store reports for the pattern and the context", node=f)
     for n in wild:
         names_ = {x.id for x in ast.walk(n.test.comparators[0]) if isinstance(x, ast.Name)}
         ok = ctx in names_
